@@ -68,8 +68,8 @@ Theorem prql_canon_compat :
 Proof. vm_compute. reflexivity. Qed.
 Print Assumptions prql_canon_compat.
 
-(* pratt_respects_table + uniqueness: a token list has at most one reading that respects the table,
-   and the parser returns it.  "Binds as documented" is therefore a property of the table alone. *)
+(* uniqueness: a token list has at most one reading that respects the table.  "Binds as documented" is
+   therefore a property of the table alone. *)
 Theorem pratt_unique :
   forall d1 d2 : dexpr pop unop nat nat,
   dok pop unop nat nat pprec prassoc puprec PINF d1 = true ->
@@ -78,11 +78,20 @@ Theorem pratt_unique :
 Proof. exact (prql_unique prql_table_ok). Qed.
 Print Assumptions pratt_unique.
 
+(* pratt_respects_table: the tree returned for ANY token list is a reading of exactly those tokens
+   (n parenthesis layers around d) that respects the table ... *)
 Theorem pratt_respects_table :
+  forall fuel ts e, gparse fuel 0 ts = Some (e, []) ->
+  exists n d, erase d = e /\ dok pop unop nat nat pprec prassoc puprec PINF d = true /\ ts = wrap n (dprint pop unop nat nat d).
+Proof. exact (prql_parse_sound prql_table_ok). Qed.
+Print Assumptions pratt_respects_table.
+
+(* ... and conversely the parser finds every table-respecting reading (with pratt_unique: exactly one tree) *)
+Theorem pratt_finds_table_reading :
   forall d : dexpr pop unop nat nat, dok pop unop nat nat pprec prassoc puprec PINF d = true ->
   exists fuel, gparse fuel 0 (dprint pop unop nat nat d) = Some (erase d, []).
 Proof. exact (prql_parse_finds prql_table_ok). Qed.
-Print Assumptions pratt_respects_table.
+Print Assumptions pratt_finds_table_reading.
 
 Theorem prql_print_parse_roundtrip :
   forall P : policy pop unop, compat pop unop pprec prassoc puprec PINF pops_all unops_all P = true ->
@@ -92,7 +101,7 @@ Print Assumptions prql_print_parse_roundtrip.
 
 (* the code's table is the documented table.
    FULL STATEMENT (false on the unchanged tree):  doc_agrees [] = true.
-   The book's table does not list `~=` (finding F31); every other operator, the order of the levels,
+   The book's table does not list `~=` (finding C02-N1); every other operator, the order of the levels,
    the associativities, the unary and range rows and the layering unary -> range -> pratt agree. *)
 Theorem code_table_eq_doc_table_partial : doc_agrees [B_RegexSearch] = true.
 Proof. vm_compute. reflexivity. Qed.
@@ -142,7 +151,7 @@ Print Assumptions modelled_algorithms_unchanged.
    the same tree or to a rotation licensed by a law -- for EVERY triple of the dialect outside the
    known classes.
    FULL STATEMENT (false on the unchanged tree):  bad_table d = [].
-   known_triple = F2 (between) + F5 (dishonest templates) + F34 (regexp) + F32 (equality under
+   known_triple = F2 (between) + F5 (dishonest templates) + C02-N3 (regexp) + C02-N2 (equality under
    comparison) + F4 (comparison chain) + F30 (multiply, right operand on the same level). *)
 Theorem sql_compat_sqlite_partial : sql_compat d_sqlite = true.
 Proof. vm_compute. reflexivity. Qed.
@@ -160,10 +169,10 @@ Theorem sql_compat_refuted :
   forallb (fun t => mem_triple t (bad_table d_sqlite))
     [ (k_add, 0, k_between)%nat      (* F2  (a | in 1..5) + 1  ->  a BETWEEN 1 AND 5 + 1 *);
       (k_mod, 1, k_div_i)%nat        (* F5  c % (a // b)       ->  c % ROUND(..) * SIGN(a) * SIGN(b) *);
-      (k_lt, 0, k_eq)%nat            (* F32 (a == b) < c       ->  a = b < c *);
+      (k_lt, 0, k_eq)%nat            (* N2  (a == b) < c       ->  a = b < c *);
       (k_lt, 1, k_lt)%nat            (* F4  a < (b < c)        ->  a < b < c *);
       (k_mul, 1, k_mod)%nat          (* F30 a * (b % c)        ->  a * b % c *);
-      (k_lt, 0, k_regex)%nat         (* F34 (a ~= b) < c       ->  a REGEXP b < c *) ] = true
+      (k_lt, 0, k_regex)%nat         (* N3  (a ~= b) < c       ->  a REGEXP b < c *) ] = true
   /\ mem_triple (k_mul, 1, k_div_f)%nat (bad_table d_generic) = true.   (* F30, generic `/` *)
 Proof. vm_compute. split; reflexivity. Qed.
 Print Assumptions sql_compat_refuted.
@@ -183,7 +192,7 @@ Proof. vm_compute. reflexivity. Qed.
 Print Assumptions template_strength_honest_refuted.
 
 (* every hole asks for at least what its position in the template text needs.
-   Known: bigquery math.degrees / math.radians (`({column:0} * 180 / PI())`, F35) and the right operand of
+   Known: bigquery math.degrees / math.radians (`({column:0} * 180 / PI())`, C02-N4) and the right operand of
    the infix regex templates (`{text} ~ {pattern}`, `{text} REGEXP {pattern}`). *)
 Definition known_insufficient : list str :=
   [tname_of [98;105;103;113;117;101;114;121] [109;97;116;104;46;100;101;103;114;101;101;115];
